@@ -415,7 +415,7 @@ func (root *Root) formArgs(
 	// appropriate.
 	if 0 < len(field.Args) {
 		args = map[string]interface{}{}
-		for _, av := range field.Args {
+		for _, av := range field.orderedArgs() {
 			if av != nil {
 				var at Type
 				if fd != nil {
@@ -505,11 +505,12 @@ func (root *Root) resolveField(
 
 	if field.ConType == nil {
 		field.ConType = t
-		ea = append(ea, field.sortArgs()...)
-		if 0 < len(ea) {
-			Errors(ea).in(field.key())
-			return
-		}
+	}
+	// Checked on every resolve and not just the first so that resolving an
+	// executable again gives the same result.
+	if ea = field.sortArgs(); 0 < len(ea) {
+		Errors(ea).in(field.key())
+		return
 	}
 	const queryType = "Query"
 	var ea2 []error
@@ -707,7 +708,7 @@ func (root *Root) formReflectArgs(ov reflect.Value, vars map[string]interface{},
 	args = append(args, ov)
 	// Build the args by combining provided args and variable values as
 	// appropriate.
-	for _, av := range field.Args {
+	for _, av := range field.orderedArgs() {
 		if vr, ok := av.Value.(Var); ok && vars != nil {
 			args = append(args, reflect.ValueOf(vars[string(vr)]))
 		} else {
